@@ -2,6 +2,9 @@ module verifharness
 
 go 1.16
 
-require github.com/taskctl/taskctl v0.0.0
+require (
+	github.com/sirupsen/logrus v1.4.2
+	github.com/taskctl/taskctl v0.0.0
+)
 
 replace github.com/taskctl/taskctl => /repo
